@@ -1,10 +1,17 @@
 /- Driver ops for the PyNs model (`PypyrModel/PyNs.lean`, property C14).
 
    pyns.session {ctx: [[k, V]…], imps: [[k, V]…], hidden: [[k, V]…], heap: [cell…], bi: [name…],
-                 ops: [op…], old: bool, fuel: n}
+                 ops: [op…], old: bool, child: bool, fuel: n}
+       old   = get_eval_string before 62901c4; child = get_eval_string of 62901c4..81f45d6^ (both
+               historical; default: the code as it is now)
        V    = {"tok": [org, name]} | n (constant) | null | {"ref": r}      org = ctx|imp|mod|bi|special
        cell = {"l": [V…]} | {"t": [V…]}
        op   = {"pyimport": [[alias, V]…]} | {"eval": Expr} | {"exec": [Stmt…]}
+            | {"ctxset": [[k, V]…]}      context.update(…)            (steps set/contextsetf/default…)
+            | {"ctxdel": [k…]}           del context[k] where present (contextclear)
+            | {"clearall": true}         contextclearall (context and pyimport namespace wiped)
+            | {"rehydrate": kind}        pickle / deepcopy / copy round trip of the Context object,
+                                         the session goes on with the rehydrated object
        Expr = {"n": x} | {"c": n} | {"w": [x, Expr]} | {"t": [Expr…]} | {"lam": [[p…], Expr]}
             | {"call": [Expr, [Expr…]]} | {"app": [Expr, Expr]}
             | {"comp": {"gen": bool, "elt": Expr, "cl": [[target, Expr, [Expr…]]…]}}
@@ -138,10 +145,52 @@ def stmtOfJson (j : Json) : Except String Stmt := do
     | _ => throw "bad save"
   throw s!"bad stmt {j.compress}"
 
+/-! Rebinding `__builtins__` (`(__builtins__ := e)`, `__builtins__ = e`, `del __builtins__`, as a
+    comprehension target / parameter / def / class / import alias) changes where CPython finds the
+    builtins of every frame created afterwards: outside the modelled domain, rejected. -/
+
+mutual
+partial def exprBindsBuiltins (e : Expr) : Bool :=
+  match e with
+  | .name _ => false
+  | .const _ => false
+  | .walrus x e1 => x == "__builtins__" || exprBindsBuiltins e1
+  | .tuple es => es.any exprBindsBuiltins
+  | .comp _ elt cls =>
+    exprBindsBuiltins elt ||
+      cls.any (fun c => c.1 == "__builtins__" || exprBindsBuiltins c.2.1 || c.2.2.any exprBindsBuiltins)
+  | .lam ps body => ps.contains "__builtins__" || exprBindsBuiltins body
+  | .call f args => exprBindsBuiltins f || args.any exprBindsBuiltins
+  | .append t e1 => exprBindsBuiltins t || exprBindsBuiltins e1
+end
+
+def bodyBindsBuiltins (b : List (String × Expr)) : Bool :=
+  b.any (fun l => l.1 == "__builtins__" || exprBindsBuiltins l.2)
+
+def stmtBindsBuiltins : Stmt → Bool
+  | .assign x e => x == "__builtins__" || exprBindsBuiltins e
+  | .aug x e => x == "__builtins__" || exprBindsBuiltins e
+  | .del x => x == "__builtins__"
+  | .imp x _ => x == "__builtins__"
+  | .def_ f ps gl body ret =>
+    f == "__builtins__" || ps.contains "__builtins__" || gl.contains "__builtins__" ||
+      bodyBindsBuiltins body || exprBindsBuiltins ret
+  | .cls c body => c == "__builtins__" || bodyBindsBuiltins body
+  | .expr e => exprBindsBuiltins e
+  | .save _ kws => kws.any (fun l => exprBindsBuiltins l.2)
+
 inductive Op where
   | pyimport (b : Env)
   | eval (e : Expr)
   | exec (b : List Stmt)
+  | ctxset (b : Env)
+  | ctxdel (ks : List String)
+  | clearall
+  | rehydrate
+
+inductive Mode where
+  | now | child | old
+  deriving DecidableEq
 
 def opOfJson (j : Json) : Except String Op := do
   if let .ok b := j.getObjVal? "pyimport" then
@@ -149,11 +198,23 @@ def opOfJson (j : Json) : Except String Op := do
   if let .ok e := j.getObjVal? "eval" then
     let e ← exprOfJson e
     if !e.wf [] false false false then throw "ill-formed expression"
+    if exprBindsBuiltins e then throw "outside the modelled domain: binds __builtins__"
     return .eval e
   if let .ok b := j.getObjVal? "exec" then
     let b ← (← arrOf b).mapM stmtOfJson
     if !b.all Stmt.wf then throw "ill-formed block"
+    if b.any stmtBindsBuiltins then throw "outside the modelled domain: binds __builtins__"
     return .exec b
+  if let .ok b := j.getObjVal? "ctxset" then
+    return .ctxset (← envOfJson b)
+  if let .ok b := j.getObjVal? "ctxdel" then
+    return .ctxdel (← strList b)
+  if let .ok _ := j.getObjVal? "clearall" then
+    return .clearall
+  if let .ok k := j.getObjVal? "rehydrate" then
+    let k ← k.getStr?
+    if k != "pickle" && k != "deepcopy" && k != "copy" then throw s!"bad rehydrate kind {k}"
+    return .rehydrate
   throw s!"bad op {j.compress}"
 
 /-! dump with numbering of mutable objects by first appearance -/
@@ -165,8 +226,13 @@ def seenGet (s : Seen) (r : Nat) : Option Nat :=
   | [] => none
   | (r', k) :: rest => if r' = r then some k else seenGet rest r
 
+/-- Tuples are dumped by value; one nested more than this many tuples deep is cut (`{"deep": true}`):
+    `(y := (y, y))` in a loop builds a DAG whose by-value dump is exponential. Same constant in
+    `harness/impl_c14.py` (`World.TUPLE_DEPTH`). -/
+def tupleDepth : Nat := 6
+
 mutual
-partial def dumpV (heap : List Cell) (s : Seen) (v : V) : Json × Seen :=
+partial def dumpV (heap : List Cell) (s : Seen) (v : V) (td : Nat := 0) : Json × Seen :=
   match v with
   | .tok o n => (Json.mkObj [("tok", Json.arr #[Json.str (Org.str o), Json.str n])], s)
   | .cst n => (Json.num (Lean.JsonNumber.fromNat n), s)
@@ -174,14 +240,15 @@ partial def dumpV (heap : List Cell) (s : Seen) (v : V) : Json × Seen :=
   | .ref r =>
     match heap[r]? with
     | some (.tuple xs) =>
-      let (js, s1) := dumpL heap s xs
+      if td ≥ tupleDepth then (Json.mkObj [("deep", Json.bool true)], s) else
+      let (js, s1) := dumpL heap s xs (td + 1)
       (Json.mkObj [("t", Json.arr js.toArray)], s1)
     | some (.list xs) =>
       match seenGet s r with
       | some k => (Json.mkObj [("seen", k)], s)
       | none =>
         let k := s.length
-        let (js, s1) := dumpL heap ((r, k) :: s) xs
+        let (js, s1) := dumpL heap ((r, k) :: s) xs td
         (Json.mkObj [("l", k), ("xs", Json.arr js.toArray)], s1)
     | some (.clo _) =>
       match seenGet s r with
@@ -192,23 +259,23 @@ partial def dumpV (heap : List Cell) (s : Seen) (v : V) : Json × Seen :=
       | some k => (Json.mkObj [("seen", k)], s)
       | none =>
         let k := s.length
-        let (js, s1) := dumpE heap ((r, k) :: s) attrs
+        let (js, s1) := dumpE heap ((r, k) :: s) attrs td
         (Json.mkObj [("cls", k), ("attrs", Json.arr js.toArray)], s1)
     | some (.frame _) => (Json.mkObj [("frame", r)], s)
     | none => (Json.mkObj [("dangling", r)], s)
-partial def dumpL (heap : List Cell) (s : Seen) (xs : List V) : List Json × Seen :=
+partial def dumpL (heap : List Cell) (s : Seen) (xs : List V) (td : Nat := 0) : List Json × Seen :=
   match xs with
   | [] => ([], s)
   | x :: rest =>
-    let (j, s1) := dumpV heap s x
-    let (js, s2) := dumpL heap s1 rest
+    let (j, s1) := dumpV heap s x td
+    let (js, s2) := dumpL heap s1 rest td
     (j :: js, s2)
-partial def dumpE (heap : List Cell) (s : Seen) (e : Env) : List Json × Seen :=
+partial def dumpE (heap : List Cell) (s : Seen) (e : Env) (td : Nat := 0) : List Json × Seen :=
   match e with
   | [] => ([], s)
   | (k, v) :: rest =>
-    let (j, s1) := dumpV heap s v
-    let (js, s2) := dumpE heap s1 rest
+    let (j, s1) := dumpV heap s v td
+    let (js, s2) := dumpE heap s1 rest td
     (Json.arr #[Json.str k, j] :: js, s2)
 end
 
@@ -226,25 +293,43 @@ def stepJson (st : St) (res : R (Option V)) : Json :=
 
 def fatal (e : Err) : Bool := e == .outOfFuel || e == .outOfDomain
 
-def runOps (old : Bool) (fuel : Nat) : List Op → St → List Json → List Json × Bool
+def runEvalMode (m : Mode) (fuel : Nat) (st : St) (e : Expr) : R V × St :=
+  match m with
+  | .now => runEval false fuel st e
+  | .old => runEval true fuel st e
+  | .child => runEvalChild fuel st e
+
+def runOps (m : Mode) (fuel : Nat) : List Op → St → List Json → List Json × Bool
   | [], _, acc => (acc.reverse, false)
   | op :: rest, st, acc =>
     match op with
     | .pyimport b =>
       let st1 := runPyImport st b
-      runOps old fuel rest st1 (stepJson st1 (.ok none) :: acc)
+      runOps m fuel rest st1 (stepJson st1 (.ok none) :: acc)
+    | .ctxset b =>
+      let st1 := runCtxSet st b
+      runOps m fuel rest st1 (stepJson st1 (.ok none) :: acc)
+    | .ctxdel ks =>
+      let st1 := runCtxDel st ks
+      runOps m fuel rest st1 (stepJson st1 (.ok none) :: acc)
+    | .clearall =>
+      let st1 := runClearAll st
+      runOps m fuel rest st1 (stepJson st1 (.ok none) :: acc)
+    | .rehydrate =>
+      let st1 := runRehydrate st
+      runOps m fuel rest st1 (stepJson st1 (.ok none) :: acc)
     | .eval e =>
-      match runEval old fuel st e with
-      | (.ok v, st1) => runOps old fuel rest st1 (stepJson st1 (.ok (some v)) :: acc)
+      match runEvalMode m fuel st e with
+      | (.ok v, st1) => runOps m fuel rest st1 (stepJson st1 (.ok (some v)) :: acc)
       | (.err er, st1) =>
         if fatal er then ((stepJson st1 (.err er) :: acc).reverse, true)
-        else runOps old fuel rest st1 (stepJson st1 (.err er) :: acc)
+        else runOps m fuel rest st1 (stepJson st1 (.err er) :: acc)
     | .exec b =>
       match runPyStep fuel st b with
-      | (.ok _, st1) => runOps old fuel rest st1 (stepJson st1 (.ok none) :: acc)
+      | (.ok _, st1) => runOps m fuel rest st1 (stepJson st1 (.ok none) :: acc)
       | (.err er, st1) =>
         if fatal er then ((stepJson st1 (.err er) :: acc).reverse, true)
-        else runOps old fuel rest st1 (stepJson st1 (.err er) :: acc)
+        else runOps m fuel rest st1 (stepJson st1 (.err er) :: acc)
 
 def handle (op : String) (j : Json) : Except String Json := do
   match op with
@@ -263,13 +348,18 @@ def handle (op : String) (j : Json) : Except String Json := do
     let old ← match j.getObjVal? "old" with
       | .ok b => b.getBool?
       | .error _ => pure false
+    let child ← match j.getObjVal? "child" with
+      | .ok b => b.getBool?
+      | .error _ => pure false
+    if old && child then throw "old and child are exclusive"
+    let mode : Mode := if old then .old else if child then .child else .now
     let fuel ← match j.getObjVal? "fuel" with
       | .ok f => jsonNat? f
       | .error _ => pure 400
     let st : St := { ctx := ctx, imps := imps, hidden := ("__builtins__", builtinsTok) :: hidden,
                      scratch := [], ns := [], bi := bi.map (fun n => (n, V.tok .bi n)),
                      heap := heap, saved := [] }
-    let (steps, stopped) := runOps old fuel ops st []
+    let (steps, stopped) := runOps mode fuel ops st []
     pure (Json.mkObj [("steps", Json.arr steps.toArray), ("stopped", Json.bool stopped)])
   | _ => .error s!"unknown op {op}"
 
